@@ -408,6 +408,39 @@ def r4(ctx):
                         'regions/io/crtf/read.py')
 
 
+def r4b(ctx):
+    """identifier semantics by symbolic evaluation: write -> extension test; read -> (str and extension) or content;
+    any other method -> False; never raises on a path string."""
+    from ..vg import Const, Evaluator, Obj, show
+    m = ctx.model
+    ext_re = r"apply\(attr:endswith\(apply\(attr:lower\(filepath\)\)\), (\[.*?\]|'[^']*')\)"
+    for fmt in FORMATS:
+        ident = m.registered('identify', fmt)
+        probs = []
+        res = {}
+        for meth in ('read', 'write', 'serialize'):
+            ev = Evaluator(m)
+            fp = Obj('str', {}, 'filepath')
+            fp.typed = False
+            out = ev.run(ident, [Const(meth), fp], {})
+            res[meth] = ([(show(ev.conj(pc), 400), show(v, 400)) for pc, v in out.returns], [n for _, n, _ in out.raises])
+        rets, raises = res['serialize']
+        if raises or [v for _, v in rets] != ['False']:
+            probs.append(f'for a method that is neither read nor write it returns {[v for _, v in rets]} (raises {raises}); must be False')
+        rets, raises = res['write']
+        if raises or len(rets) != 1 or not re.fullmatch(ext_re, rets[0][1]):
+            probs.append(f'write: returns {rets[:2]} (raises {raises}); must be the extension test on the lower-cased path')
+        rets, raises = res['read']
+        want_cond = r"\(bool\(isinstance\(filepath, str\)\) and bool\(" + ext_re + r"\)\)"
+        if raises or not rets or rets[0][1] != 'True' or not re.fullmatch(want_cond, rets[0][0]):
+            probs.append(f'read: first outcome is {rets[:1]} (raises {raises}); must be True exactly when the path is a str with a '
+                         'read extension, before the content is looked at')
+        if probs:
+            ctx.bad(ident.qualname, 'identifier-semantics', f'{fmt}: ' + '; '.join(probs), ident.loc())
+        else:
+            ctx.ok(f'{ident.qualname}:semantics', 'write: extension; read: str+extension first; other methods: False')
+
+
 def r5(ctx):
     m = ctx.model
     reg = m.cls('RegionsRegistry')
@@ -470,5 +503,6 @@ RULES = [
     RuleDef('R2', 'serialisation dominates open; no repo code after open', r2, 3),
     RuleDef('R3', 'overwrite parameter default False, read and forwarded', r3, 6),
     RuleDef('R4', 'identifier extension/signature tables agree with writers', r4, 6),
+    RuleDef('R4b', 'identifier semantics (symbolic): write/read/other-method outcomes', r4b, 3),
     RuleDef('R5', 'registry raises IORegistryError for unknown/unidentified formats', r5, 6),
 ]
